@@ -7,9 +7,17 @@ application term r = f(args) (each proved below as a lemma or immediate from the
 definition by induction; listed in the evidence under assumptions)."""
 
 Int = int
+Nat = int
 Bool = bool
 Seq = list
 Str = str
+IntList = list
+Bytes = bytes
+
+
+def lemma(f):
+    """marks a lemma procedure: requires/ensures/decreases + a proof body, verified by the engine"""
+    return f
 
 
 def implies(a, b):
@@ -44,8 +52,13 @@ def be_val(s) -> Int:
     return be_val(s[:len(s) - 1]) * 256 + s[len(s) - 1]
 
 
+def typed_bytes(s):
+    """s is a python bytes / bytearray object (so every element is in 0..255: type invariant)"""
+    return isinstance(s, (bytes, bytearray))
+
+
 def be_val__facts(s, r):
-    return implies(all_bytes(s), r >= 0)
+    return implies(typed_bytes(s) or all_bytes(s), r >= 0)
 
 
 def le_val(s) -> Int:
@@ -90,3 +103,140 @@ def seq_lt(a, b) -> Bool:
     if a[0] != b[0]:
         return a[0] < b[0]
     return seq_lt(a[1:], b[1:])
+
+
+def abs_(x):
+    if x < 0:
+        return -x
+    return x
+
+
+def be_bytes(x, k) -> Seq:
+    """k-octet big-endian form of x mod 256^k; for negative x this is the two's complement form
+    (floor division), i.e. int.to_bytes(k, 'big', signed=True) when x fits"""
+    if k <= 0:
+        return []
+    return be_bytes(x // 256, k - 1) + [x % 256]
+
+
+def be_bytes__facts(x, k, r):
+    return implies(k >= 0, len(r) == k) and implies(k < 0, len(r) == 0)
+
+
+def tc_fits(x, k):
+    """x is representable in k octets of two's complement"""
+    return -pow2(8 * k - 1) <= x and x < pow2(8 * k - 1)
+
+
+def tc_min_len(x, k):
+    """k is the least number of octets (>= 1) in which x is representable (X.690 8.3.2)"""
+    return k >= 1 and tc_fits(x, k) and (k == 1 or not tc_fits(x, k - 1))
+
+
+def tc_val(s):
+    """int.from_bytes(s, 'big', signed=True)"""
+    if len(s) == 0:
+        return 0
+    if s[0] >= 128:
+        return be_val(s) - pow2(8 * len(s))
+    return be_val(s)
+
+
+# ---------------------------------------------------------------------------------------------
+# lemmas (proved by the engine itself: induction = recursive call with a decreases measure)
+
+@lemma
+def blen_upper(m: Int):
+    requires(m >= 0)
+    ensures(m < pow2(blen(m)))
+    decreases(m)
+    if m > 0:
+        blen_upper(m // 2)
+
+
+@lemma
+def blen_lower(m: Int):
+    requires(m > 0)
+    ensures(pow2(blen(m) - 1) <= m)
+    decreases(m)
+    if m > 1:
+        blen_lower(m // 2)
+
+
+@lemma
+def pow2_mono(a: Int, b: Int):
+    requires(0 <= a and a <= b)
+    ensures(pow2(a) <= pow2(b))
+    decreases(b - a)
+    if a < b:
+        pow2_mono(a, b - 1)
+
+
+def lv(s, hi) -> Int:
+    """little-endian value of the octets s continued by the number hi:  sum s[i]*256^i + hi*256^len(s)"""
+    if len(s) == 0:
+        return hi
+    return s[0] + 256 * lv(s[1:], hi)
+
+
+@lemma
+def lv_snoc(s: IntList, x: Int):
+    ensures(lv(s + [x % 256], x // 256) == lv(s, x))
+    decreases(len(s))
+    if len(s) > 0:
+        lv_snoc(s[1:], x)
+
+
+@lemma
+def be_val_rev(s: IntList):
+    ensures(be_val(rev(s)) == lv(s, 0))
+    decreases(len(s))
+    if len(s) > 0:
+        be_val_rev(s[1:])
+
+
+@lemma
+def rev_snoc(s: IntList, x: Int):
+    ensures(rev(s + [x]) == [x] + rev(s))
+    decreases(len(s))
+    if len(s) > 0:
+        rev_snoc(s[1:], x)
+
+
+@lemma
+def blen_div256(x: Int):
+    requires(x >= 256)
+    ensures(blen(x // 256) == blen(x) - 8)
+    blen(x // 4)
+    blen(x // 16)
+    blen(x // 64)
+
+
+@lemma
+def blen_small(x: Int):
+    requires(0 < x and x < 256)
+    ensures(1 <= blen(x) and blen(x) <= 8)
+    blen(x // 4)
+    blen(x // 16)
+    blen(x // 64)
+    blen(x // 256)
+
+
+@lemma
+def blen_le(x: Int, b: Int):
+    """x < 2^b  ==>  blen(x) <= b"""
+    requires(0 <= x and b >= 0 and x < pow2(b))
+    ensures(blen(x) <= b)
+    if x > 0:
+        blen_lower(x)
+        if blen(x) - 1 >= b:
+            pow2_mono(b, blen(x) - 1)
+
+
+@lemma
+def be_val_nonneg(s: IntList):
+    requires(all_bytes(s))
+    ensures(be_val(s) >= 0)
+    decreases(len(s))
+    if len(s) > 0:
+        be_val_nonneg(s[:len(s) - 1])
